@@ -19,13 +19,16 @@ BY_ADDRESS_RESETTERS = {"memset": 0, "VarInit": 0, "VarClear": 0}
 
 
 class MustWrite:
-    def __init__(self, P, extra_cover_methods=()):
+    def __init__(self, P, extra_cover_methods=(), resize_covers=True):
+        """resize_covers=False: `v.resize(n)` keeps the old elements, so it does not count as a re-initialisation of v (used where the
+        question is whether state of an earlier history can survive; the lenient default suits scratch buffers that are resized and
+        then filled before every use)"""
         self.P = P
         self.cg = callgraph(P)
         self.memo = {}
         self._cur = None
         self.stack = set()
-        self.cover_methods = COVER_METHODS | set(extra_cover_methods)
+        self.cover_methods = (COVER_METHODS | set(extra_cover_methods)) - (set() if resize_covers else {"resize"})
 
     # ------------------------------------------------------------------
     def of_function(self, key):
